@@ -20,8 +20,15 @@ import json,re,sys
 m=json.load(open('$d/meta.json'))
 print(' '.join(sorted({re.match(r'C\d\d',c).group(0) for c in m.get('caught_by',[]) if re.match(r'C\d\d',c)})))")
   res=""
+  if [ -z "$checks" ]; then
+    # kept as a documented limit (meta.json: caught_by empty): run the property's own check
+    p=${id%%-*}
+    out=$(VERIF_SEED=${VERIF_SEED:-0} "$V/check" "$p" --tier quick 2>&1)
+    v=$(echo "$out" | grep -cE "^VIOLATION")
+    res=" $p:$([ "$v" -gt 0 ] && echo CAUGHT-NOW || echo EXPECTED-MISS)"
+  fi
   for c in $checks; do
-    if echo "$id" | grep -q -- "-M"; then
+    if grep -q "thorough:" "$d/meta.json" && echo "$id" | grep -q -- "-M"; then
       PV_DIR="$V" PV_REPO="$REPO" "$V/tools/san_legs.sh" "$c" "$V/.build/san/regress-$id.json" > "$V/.build/logs/regress-$id-$c.log" 2>&1
       n=$(python3 -c "import json;print(sum(l['reports'] for l in json.load(open('$V/.build/san/regress-$id.json'))['legs']))")
       res="$res $c(san-legs):reports=$n"
